@@ -22,6 +22,6 @@ DELIVERABLES, written into /tmp/wt-{pid}/_out/ :
   - the demonstration test file (copy of it), named demo_test.rs (it will be placed in tests/ to run)
   - meta.json : {{"property": "{pid.upper()}", "summary": "<what the change is>", "needs": "<what specific circumstances make it manifest>", "demo_cmd": "<exact command to run the demo>", "fails_with_change": "<observed failure>", "passes_without_change": true, "suite_passes_with_change": true, "miri_only": true|false}}
 
-When done, run `git -C /tmp/wt-{pid} stash -u` or otherwise leave the worktree in any state — but make sure _out/ contains the deliverables (copy them before stashing; _out is untracked so prefer NOT stashing: simply leave everything as is). Finally remove the build output: `rm -rf /tmp/wt-{pid}/target`.
+NEVER use `git stash` (the stash is shared by every worktree of the repository and other agents work in parallel); to test on unmodified code use `git diff -- src > /tmp/wt-{pid}/_out/patch.diff && git apply -R ...` and re-apply afterwards. When done, leave the worktree in any state — but make sure _out/ contains the deliverables (copy them before stashing; _out is untracked so prefer NOT stashing: simply leave everything as is). Finally remove the build output: `rm -rf /tmp/wt-{pid}/target`.
 
 In your final answer, summarise the change, what it needs to manifest, and the commands you ran with their results.""")
